@@ -57,6 +57,17 @@ TABLE = {
              "f returning (), (1,), (k,), 1..5 time points, batches from the real generators and hand-built ones.",
         note="outward normals as stated in the property; scalar boundary weight; pointwise networks (separable ones via C11)",
         ref="DESIGN.md §4 C04"),
+    "C06": dict(
+        technique="runtime gradient-routing monitor: jacrev of (total, terms) under enumerated masks vs per-term gradients of the all-selected loss",
+        level="exploration",
+        text="For ODE / stationary / non-stationary losses where every (term, group) pair has a non-zero gradient, the "
+             "total gradient and every per-term gradient are observed for boolean-tree masks passed as traced data "
+             "(ODE 2^9 exhaustive; stationary 2^12 and non-stationary 2^15 exhaustive in the thorough tier, random + "
+             "single-bit/all-but-one in quick), as Python bools with a fresh trace, through from_str (3^k forms) and "
+             "the defaults; 2-unknown systems with random per-unknown masks. Unselected pairs must contribute exactly 0 "
+             "and loss values must not depend on the mask.",
+        note="per-term reference gradients come from the all-selected loss (term values are C03-C05's business)",
+        ref="DESIGN.md §4 C06"),
     "C08": dict(
         technique="runtime invariant monitor on generator stores and on every batch of long get_batch histories",
         level="exploration",
